@@ -124,12 +124,20 @@ impl PatSpec {
     }
     /// Named arguments rendered in canonical order.
     pub fn args(&self) -> String {
+        self.args_cb(None)
+    }
+
+    /// Named arguments in canonical order with an optional `callback = ...`.
+    pub fn args_cb(&self, callback: Option<&str>) -> String {
         let mut s = String::new();
         if let Some(p) = self.priority {
             s.push_str(&format!(", priority = {p}"));
         }
         if self.allow_greedy {
             s.push_str(", allow_greedy = true");
+        }
+        if let Some(cb) = callback {
+            s.push_str(&format!(", callback = {cb}"));
         }
         // parenthesised argument last (order independence is C18's business)
         if self.ignore_case {
@@ -182,10 +190,24 @@ impl DefSpec {
     /// `extra_logos` extra items for the `#[logos(...)]` attribute, `derive_line` e.g.
     /// `#[derive(Logos, Debug, Clone, Copy, PartialEq)]`.
     pub fn render_enum(&self, name: &str, derive_line: &str, extra_logos: &[String]) -> String {
+        self.render_with(name, derive_line, extra_logos, self.utf8, &|_, _| None)
+    }
+
+    /// Like `render_enum`, with the mode overridable and a callback source per leaf
+    /// (`cb(leaf index, pattern)` -> callback expression).
+    pub fn render_with(
+        &self,
+        name: &str,
+        derive_line: &str,
+        extra_logos: &[String],
+        utf8: bool,
+        cb: &dyn Fn(usize, &PatSpec) -> Option<String>,
+    ) -> String {
         let mut s = String::new();
+        let mut leaf = 0usize;
         s.push_str(derive_line);
         s.push('\n');
-        if !self.utf8 {
+        if !utf8 {
             s.push_str("#[logos(utf8 = false)]\n");
         }
         for e in extra_logos {
@@ -195,8 +217,10 @@ impl DefSpec {
             s.push_str(&format!("#[logos(subpattern {} = {})]\n", sp.name, sp.lit.rust()));
         }
         for sk in &self.skips {
-            let args = sk.args();
-            if args.is_empty() && sk.callback.is_none() {
+            let c = cb(leaf, sk);
+            leaf += 1;
+            let args = sk.args_cb(c.as_deref());
+            if args.is_empty() {
                 s.push_str(&format!("#[logos(skip {})]\n", sk.lit.rust()));
             } else {
                 s.push_str(&format!("#[logos(skip({}{}))]\n", sk.lit.rust(), args));
@@ -209,7 +233,9 @@ impl DefSpec {
                     PatKind::Token => "token",
                     PatKind::Regex => "regex",
                 };
-                s.push_str(&format!("    #[{attr}({}{})]\n", p.lit.rust(), p.args()));
+                let c = cb(leaf, p);
+                leaf += 1;
+                s.push_str(&format!("    #[{attr}({}{})]\n", p.lit.rust(), p.args_cb(c.as_deref())));
             }
             s.push_str(&format!("    V{vi},\n"));
         }
